@@ -1,6 +1,7 @@
 import HgVerif.Model.Engine
 import HgVerif.Driver.Proto
 import HgVerif.Model.Extracted
+import HgVerif.Model.Rank
 /-! Model driver for the engine: same line protocol as `harness/drv_engine.cpp`.
     Parses the textual program, elaborates it into `Engine.CProg` (instances, resolved input
     bindings, subscriptions) and prints `Engine.runProg`. -/
@@ -66,6 +67,7 @@ structure Tgt where
   inst : Nat
   idx : Nat
   port : Port := .main
+  via : Option (Nat × Nat) := none     -- the nested node (instance, index) whose output forwards this target
 deriving Repr
 
 structure Elab where
@@ -80,7 +82,14 @@ def argRef (env : List (String × Tgt)) (a : String) (unchecked : Bool := false)
   let passive := a.startsWith "~"
   let key := if passive then (a.drop 1).toString else a
   (envGet env key).map fun t => { inst := t.inst, idx := t.idx, port := t.port, passive := passive, unchecked := unchecked,
-                                  boundary := key.startsWith "$" }
+                                  boundary := key.startsWith "$",
+                                  rankIdx := none }
+
+/-- the node of instance `inst` that a consumer of target `t` ranks after -/
+def rankOf (inst : Nat) (t : Tgt) : Option Nat :=
+  match t.via with
+  | some (vi, vj) => if vi == inst then some vj else (if t.inst == inst then some t.idx else none)
+  | none => if t.inst == inst then some t.idx else none
 
 def addNode (e : Elab) (inst : Nat) (n : CNode) : Elab × Nat :=
   let ci := e.insts.getD inst { nodes := [] }
@@ -104,17 +113,41 @@ partial def elabStmts (ps : PS) (inst : Nat) (stmts : List Stmt) (env : List (St
   | [] => (e, env)
   | st :: rest =>
     let key := toString st.lbl
-    let a (i : Nat) (u : Bool := false) := argRef env (st.args.getD i "") u
+    let a (i : Nat) (u : Bool := false) : Option InRef :=
+      let tok := st.args.getD i ""
+      let key := if tok.startsWith "~" then (tok.drop 1).toString else tok
+      (argRef env tok u).map fun r => { r with rankIdx := (envGet env key).bind (rankOf inst) }
     let num (i : Nat) : Nat := ((st.args.getD i "0").toNat?).getD 0
     let simple (k : Kind) (ins : List (Option InRef)) (hasOut : Bool := true) :=
       if ins.any Option.isNone then ({ e with err := true }, env)
       else
         let (e', idx) := addNode e inst { lbl := key, kind := k, ins := ins.filterMap id }
-        elabStmts ps inst rest (if hasOut then (key, ⟨inst, idx, .main⟩) :: env else env) e' fbs
+        elabStmts ps inst rest (if hasOut then (key, ⟨inst, idx, .main, none⟩) :: env else env) e' fbs
     match st.kind with
     | "const" => simple (.const ((parseInt (st.args.getD 0 "0")).getD 0)) []
     | "src" => simple (.src (num 0)) []
     | "add" => simple .add [a 0, a 1]
+    | "addk" =>
+      -- same definition + same scalar + same inputs: the wiring interns value-producing nodes
+      (match a 1, a 2 with
+       | some r1, some r2 =>
+         let lblK := st.args.getD 0 "0"
+         let ci := e.insts.getD inst { nodes := [] }
+         let same (n : CNode) : Bool :=
+           (match n.kind with | .add => true | _ => false) && n.lbl == lblK && n.ins.length == 2 &&
+           (n.ins.zip [r1, r2]).all (fun (x, y) => x.inst == y.inst && x.idx == y.idx && x.passive == y.passive)
+         (match ci.nodes.findIdx? same with
+          | some j => elabStmts ps inst rest ((key, ⟨inst, j, .main, none⟩) :: env) e fbs
+          | none =>
+            let (e', idx) := addNode e inst { lbl := lblK, kind := .add, ins := [r1, r2] }
+            elabStmts ps inst rest ((key, ⟨inst, idx, .main, none⟩) :: env) e' fbs)
+       | _, _ => ({ e with err := true }, env))
+    | "sinkk" =>
+      (match a 1 with
+       | some r =>
+         let (e', _) := addNode e inst { lbl := st.args.getD 0 "0", kind := .sink, ins := [r] }
+         elabStmts ps inst rest env e' fbs
+       | none => ({ e with err := true }, env))
     | "acc" => simple .acc [a 0]
     | "pass" => simple .pass [a 0]
     | "gate" =>
@@ -126,29 +159,27 @@ partial def elabStmts (ps : PS) (inst : Nat) (stmts : List Stmt) (env : List (St
     | "probe" => simple .probe [(a 0 true).map fun r => { r with passive := true }] false
     | "tryout" =>
       (match envGet env ("try:" ++ st.args.getD 0 "") with
-       | some t => simple .tryout [some { inst := t.inst, idx := t.idx, port := .bundle, unchecked := true }]
+       | some t => simple .tryout [some { inst := t.inst, idx := t.idx, port := .bundle, unchecked := true, rankIdx := rankOf inst t }]
        | none => ({ e with err := true }, env))
     | "tryerr" =>
       (match envGet env ("try:" ++ st.args.getD 0 "") with
-       | some t => simple .tryerr [some { inst := t.inst, idx := t.idx, port := .bundle, unchecked := true }]
+       | some t => simple .tryerr [some { inst := t.inst, idx := t.idx, port := .bundle, unchecked := true, rankIdx := rankOf inst t }]
        | none => ({ e with err := true }, env))
     | "errts" =>
       (match a 0 with
        | some r =>
          let e1 := { e with capt := (r.inst, r.idx) :: e.capt }
          let (e', idx) := addNode e1 inst { lbl := key, kind := .errmsg, ins := [{ r with port := .err, passive := false }] }
-         elabStmts ps inst rest ((key, ⟨inst, idx, .main⟩) :: env) e' fbs
+         elabStmts ps inst rest ((key, ⟨inst, idx, .main, none⟩) :: env) e' fbs
        | none => ({ e with err := true }, env))
     | "fbsrc" =>
       let init := if st.args.length ≥ 2 then parseInt (st.args.getD 1 "0") else none
-      let nidx := (e.insts.getD inst { nodes := [] }).nodes.length
-      let (e', idx) := addNode e inst { lbl := s!"#feedback_source:{nidx}", kind := .fbsrc init }
-      elabStmts ps inst rest ((key, ⟨inst, idx, .main⟩) :: env) e' ((num 0, idx) :: fbs)
+      let (e', idx) := addNode e inst { lbl := "#feedback_source", kind := .fbsrc init }
+      elabStmts ps inst rest ((key, ⟨inst, idx, .main, none⟩) :: env) e' ((num 0, idx) :: fbs)
     | "fbbind" =>
       (match (fbs.find? (·.1 == num 0)), a 1 with
        | some (_, sidx), some r =>
-         let nidx := (e.insts.getD inst { nodes := [] }).nodes.length
-         let (e', _) := addNode e inst { lbl := s!"#feedback_sink:{nidx}", kind := .fbsink sidx, ins := [r] }
+         let (e', _) := addNode e inst { lbl := "#feedback_sink", kind := .fbsink sidx, ins := [r] }
          elabStmts ps inst rest env e' fbs
        | _, _ => ({ e with err := true }, env))
     | "nested" | "tryx" =>
@@ -168,7 +199,7 @@ partial def elabStmts (ps : PS) (inst : Nat) (stmts : List Stmt) (env : List (St
          let (e2, _) := addNode e1 inst { lbl := key, kind := .nested child tr none, ins := args.map fun r => { r with passive := false } }
          -- the child body sees its parameters as the caller's sources (bindings, not copies)
          let cenv : List (String × Tgt) := (List.range sd.arity).zip args |>.map fun (i, r) =>
-           ("$" ++ toString i, ⟨r.inst, r.idx, r.port⟩)
+           ("$" ++ toString i, ⟨r.inst, r.idx, r.port, none⟩)
          let (e3, cenv') := elabStmts ps child sd.body cenv e2 []
          let outT := if sd.out == "-" then none else envGet cenv' sd.out
          if tr then
@@ -177,10 +208,10 @@ partial def elabStmts (ps : PS) (inst : Nat) (stmts : List Stmt) (env : List (St
            let ci3 := e3.insts.getD inst { nodes := [] }
            let nn := ci3.nodes.getD idx { lbl := key, kind := .sink }
            let e4 := { e3 with insts := e3.insts.set inst { ci3 with nodes := ci3.nodes.set idx { nn with kind := .nested child true outRef } } }
-           elabStmts ps inst rest (("try:" ++ key, ⟨inst, idx, .bundle⟩) :: env) e4 fbs
+           elabStmts ps inst rest (("try:" ++ key, ⟨inst, idx, .bundle, none⟩) :: env) e4 fbs
          else
            let env' := match outT with
-             | some t => (key, t) :: env
+             | some t => (key, { t with via := some (inst, idx) }) :: env
              | none => env
            elabStmts ps inst rest env' e3 fbs)
     | "inline" =>
@@ -207,14 +238,44 @@ partial def elabStmts (ps : PS) (inst : Nat) (stmts : List Stmt) (env : List (St
          elabStmts ps inst rest (env' ++ cenv'.filter (fun kv => !kv.1.startsWith "$")) e1 fbs)
     | _ => ({ e with err := true }, env)
 
+/-- the rank pass (`Model/Rank.lean`, the model of `build_ranked_graph`) applied to every instance:
+    returns for each instance the ranked order (list of statement-order indices) -/
+def rankOrders (insts : List CInst) : Option (List (List Nat)) :=
+  (List.range insts.length).mapM fun i =>
+    let ci := insts.getD i { nodes := [] }
+    let w : HgVerif.Rank.Wiring := ci.nodes.map fun n =>
+      { inputs := n.ins.filterMap (fun r => r.rankIdx.map (fun k => (k, true))) }
+    match HgVerif.Rank.kahn w with
+    | .ok order => some order
+    | .error _ => none
+
+def permOf (order : List Nat) (old : Nat) : Nat := order.idxOf old
+
 def compile (ps : PS) : Option CProg :=
   let e0 : Elab := { insts := [{ nodes := [] }] }
   let (e, _) := elabStmts ps 0 ps.root [] e0 []
   if e.err then none else
-  let insts := e.insts.mapIdx fun i ci =>
+  let insts0 := e.insts.mapIdx fun i ci =>
     { ci with nodes := ci.nodes.mapIdx fun j n => if e.capt.any (fun c => c.1 == i && c.2 == j) then { n with captures := true } else n }
-  some { insts := insts, subs := e.subs, startT := ps.startT, endT := ps.endT, cleanup := ps.cleanup,
-         ticks := ps.ticks, scripts := ps.scripts, faults := ps.faults, fixedResume := ps.fixedResume }
+  match rankOrders insts0 with
+  | none => none
+  | some orders =>
+    let pm (inst idx : Nat) : Nat := permOf (orders.getD inst []) idx
+    let fixRef (r : InRef) : InRef := { r with idx := pm r.inst r.idx }
+    let insts := insts0.mapIdx fun i ci =>
+      let ranked := (orders.getD i []).map fun old =>
+        let n := ci.nodes.getD old { lbl := "?", kind := .sink }
+        let kind' := match n.kind with
+          | .fbsink src => Kind.fbsink (pm i src)
+          | .nested c tr o => Kind.nested c tr (o.map fixRef)
+          | k => k
+        { n with ins := n.ins.map fixRef, kind := kind' }
+      -- feedback nodes have no program label: they are named by their rank position
+      let named := ranked.mapIdx fun j n => if n.lbl.startsWith "#feedback" then { n with lbl := s!"{n.lbl}:{j}" } else n
+      { ci with nodes := named, parent := ci.parent.map fun (pi, pj) => (pi, pm pi pj) }
+    let subs := e.subs.map fun sb => { sb with idx := pm sb.inst sb.idx, sidx := pm sb.sinst sb.sidx }
+    some { insts := insts, subs := subs, startT := ps.startT, endT := ps.endT, cleanup := ps.cleanup,
+           ticks := ps.ticks, scripts := ps.scripts, faults := ps.faults, fixedResume := ps.fixedResume }
 
 def addStmt (ps : PS) (s : Stmt) : PS :=
   match ps.cur with
@@ -224,6 +285,7 @@ def addStmt (ps : PS) (s : Stmt) : PS :=
 def step (ps : PS) (ws : List String) : PS × String :=
   match ws with
   | ["case", n] => ({}, s!"case {n}")
+  | ["reset"] => ({}, "ok")
   | "cfg" :: s :: e :: rest =>
     ({ ps with startT := s.toNat?.getD 1, endT := e.toNat?.getD 100, cleanup := !(rest.contains "cleanup=0") }, "ok")
   | "ticks" :: id :: rest =>
